@@ -107,6 +107,10 @@ fn non_utf8_space(ctx: &mut Ctx, kind: &str) {
             ("non-utf8:data-stdin-dash", vec![good_rule.to_vec(), b"-".to_vec()], Some(*b)),
             ("non-utf8:rule-argument", vec![b.to_vec(), good_data.to_vec()], None),
             ("non-utf8:rule-argument-data-stdin", vec![b.to_vec()], Some(good_data)),
+            // a data argument that cannot be used is not an omitted data argument: valid JSON waiting on stdin
+            // must not be picked up instead
+            ("non-utf8:data-argument:valid-stdin", vec![good_rule.to_vec(), b.to_vec()], Some(good_data)),
+            ("non-utf8:rule-argument:valid-stdin", vec![b.to_vec(), good_data.to_vec()], Some(good_rule)),
         ];
         for (sub, args, stdin) in forms {
             ctx.edge();
